@@ -95,6 +95,20 @@ func (d *DNode) Clone() *DNode {
 }
 
 // Size counts nodes.
+// Depth is the number of container levels below (and including) d.
+func (d *DNode) Depth() int {
+	if d == nil || (d.K != DArr && d.K != DObj) {
+		return 0
+	}
+	m := 0
+	for _, k := range d.Kids {
+		if x := k.Depth(); x > m {
+			m = x
+		}
+	}
+	return m + 1
+}
+
 func (d *DNode) Size() int {
 	n := 1
 	for _, k := range d.Kids {
